@@ -161,6 +161,7 @@ def run_check(prop, tier):
     tie_checked = 0
     outside = 0
     legs_info = {}
+    harness_errors = 0
     tie_breaks = []        # (leg, case, obs)
     oracle_fails = []      # (leg, case, msgs)
     for li, leg in enumerate(prop.legs):
@@ -178,12 +179,15 @@ def run_check(prop, tier):
         for ci, case in enumerate(cases):
             try:
                 obs = leg.observe(case)
-            except Exception as e:
-                out_lines.append(f"harness error in {pid}/{leg.name}: {e!r}\n{traceback.format_exc()}")
-                print("\n".join(out_lines))
-                sys.exit(2)
+                msgs = leg.oracle(case, obs)
+                t = leg.term(case, obs)
+            except Exception as e:  # the implementation behaved in a way the harness cannot even observe
+                harness_errors += 1
+                if harness_errors == 1:
+                    proof_problems.append(f"harness could not observe a case of leg {leg.name} ({e!r}): "
+                                          + traceback.format_exc()[-1200:])
+                continue
             total_eval += 1
-            msgs = leg.oracle(case, obs)
             if msgs:
                 oracle_fails.append((leg, case, msgs))
             if leg.nontrivial(case, obs):
@@ -191,7 +195,6 @@ def run_check(prop, tier):
             leg.stats(case, obs, acc)
             if len(samples) < 3 * (li + 1) and ci >= ncorpus and leg.nontrivial(case, obs):
                 samples.append({"leg": leg.name, "case": leg.describe(case), "observed": obs})
-            t = leg.term(case, obs)
             if t is None:
                 outside += 1
             else:
@@ -286,6 +289,7 @@ def run_check(prop, tier):
                 "exhaustive": all(l.exhaustive for l in prop.legs) if prop.legs else False,
                 "rule": " | ".join(f"{l.name}: {l.rule}" for l in prop.legs),
                 "proof_problems": proof_problems})
+    n_obl, n_dis = cov["obligations"], cov["discharged"]
     if cov["obligations"] < 1 or cov["discharged"] < 1:
         # nothing was discharged on this run (broken build / missing theorem file): do not present
         # proof-level keys; the exploration-style counts of this run stand in
@@ -296,7 +300,7 @@ def run_check(prop, tier):
         print(l)
     for k in known_hits:
         print(k)
-    print(f"[{pid}] tier={tier} seed={seed} theorems={cov['discharged']}/{cov['obligations']} "
+    print(f"[{pid}] tier={tier} seed={seed} theorems={n_dis}/{n_obl} "
           f"cases={total_eval} tie_checked={tie_checked} tie_disagreements={len(tie_breaks)} "
           f"oracle_failures={len(oracle_fails)} wall={T():.1f}s")
     for p in proof_problems:
